@@ -80,6 +80,15 @@ claim("C15", "fault_enumeration",
       "Faults are injected at libc level by path and occurrence (schedule independent). Complete over the recorded calls of each explored scenario (occurrences capped at 6-8 per function and path); scenarios are sampled.",
       "fault enumeration over recorded read-side calls on proptest-generated scenarios; metamorphic oracle (faulted run == clean run without the entry)", "DESIGN.md 4 C15")
 
+claim("C04", "exploration",
+      "Generated histories: scenario tree; `group --threads 1` paused by the LD_PRELOAD interposer at a generated open-for-read (before a file's first read, between its prefix and content reads, after all hashing); 1-3 ordinary edits (same-length rewrite, other length, append, truncate, delete, recreate, replace by dir/symlink, touch) during the pause or after `group`; then remove/link/link --soft/move/dedupe; group and dedupe under independently drawn time zones. Oracle: every content present just before the dedupe run still exists afterwards and every processed file's current content is retained in an untouched file.",
+      "Edits kept >= 30 ms away from fclones' clock reads (tick-granular kernel mtimes); pause granularity is a libc call; mtime-preserving replacement excluded by statement.",
+      "proptest-generated histories with schedule control (pause points) ; oracle = inventory invariants around the dedupe run", "DESIGN.md 4 C04")
+claim("C12", "exploration",
+      "Generated histories of 1-6 (edits ; run) steps over files sharing long prefixes/suffixes: in-place same-length rewrites, copies of other files' content, append/truncate with or without mtime change, rename, delete+recreate (inode reuse on ext4, counted), hard links, SIGKILL of a running cached group; options change on some steps. After every step the cached run (cold and warm) must print byte-identical report bodies (hashes, statistics, groups) to the uncached run with the same options.",
+      "Premise of the property is enforced by the harness: every content change gets a new mtime on a 1 ms logical clock or a different length.",
+      "proptest-generated histories; differential oracle against the uncached tool", "DESIGN.md 4 C12")
+
 NOT_YET = "check not built yet in this round (planned: see DESIGN.md section 4); not claimed until it exists"
 
 hooks_commits = subprocess.run(["git","-C","/repo","log","--format=%H %s"],capture_output=True,text=True).stdout.splitlines()
